@@ -4,13 +4,13 @@ import json, subprocess
 
 CHECKS = {
  "C17": dict(engine="E2", technique="exhaustive product sweep of the request-validity decision table on the real code vs reference predicate",
-             text="All 14 400 cells of version x method x Host x Content-Length x Transfer-Encoding x despite-method x front end are executed on the real Flow / Call objects and compared with the reference validity predicate; every cell also checks repeatability, untouched output buffer, readiness and advance. Exhaustive over the stated alphabet, so any change to any validity clause that alters a cell is seen.",
+             text="All 14 400 cells of version x method x Host x Content-Length x Transfer-Encoding x despite-method x front end are executed on the real Flow / Call objects and compared with the reference validity predicate; every cell also checks repeatability, untouched output buffer, readiness and advance. 28 800 cells incl. mixed-case chunked spellings. Exhaustive over the stated alphabet, so any change to any validity clause that alters a cell is seen.",
              note="Alphabet of header values is the one in the property's quantifier; Err vs Ok only (error variant not compared).", ref="4/C17"),
  "C03": dict(engine="E1", technique="explicit-state search of the real chunked body writer: every reachable state x full (input length, buffer length) grid, strict independent chunk decoder as oracle",
-             text="Breadth-first search over the real Flow::<SendBody> / Call::<WithBody> chunked writer. From every reachable state (full internal-state fingerprint + terminators emitted) every write of a ~10^4 (quick) / ~10^5 (thorough) cell grid is executed and its output decoded by an independent strict decoder; because all states are expanded with the full grid, every sequence of such writes - finishing writes interleaved anywhere and repeated - is covered. Explored traces are replayed clone-free on fresh objects.",
+             text="Breadth-first search over the real chunked writer reached four ways (POST flow, GET flow with send-body-despite-method, POST flow carrying both framing headers, single-call API). From every reachable state (full internal-state fingerprint + terminators emitted) every write of a ~10^4 (quick) / ~10^5 (thorough) cell grid is executed and its output decoded by an independent strict decoder; because all states are expanded with the full grid, every sequence of such writes - finishing writes interleaved anywhere and repeated - is covered. Explored traces are replayed clone-free on fresh objects.",
              note="Grid bounds: inputs <= 30730 bytes, buffers <= 20520 bytes; single pattern input (data continuity across calls follows from the per-call equality).", ref="4/C03"),
  "C04": dict(engine="E1+E2", technique="complete state graphs of the real sized writer for N<=12 plus exhaustive boundary-step sweep for every N in 0..=70000 against a counting model",
-             text="For N in 0..=12 the complete reachable graph of the real Content-Length writer under all write(i,b) and consume_direct_write(k) with arguments 0..=N+2 is explored, with a three-line counting model as oracle and readiness compared with proceed() on a clone in every state. For every N in 0..=70000 and nine large u64 values the boundary steps {0,1,N-1,N,N+1} are executed from the initial state and from the states left in {N-1,1,0}.",
+             text="For N in 0..=12 (also reached through send-body-despite-method and through a followed redirect whose original request declared another length) the complete reachable graph of the real Content-Length writer under all write(i,b) and consume_direct_write(k) with arguments 0..=N+2 is explored, with a three-line counting model as oracle and readiness compared with proceed() on a clone in every state. For every N in 0..=70000 and nine large u64 values the boundary steps {0,1,N-1,N,N+1} are executed from the initial state and from the states left in {N-1,1,0}.",
              note="Between N=12 and N=70000 only boundary arguments are exercised (the writer's arithmetic is min/subtract on u64; interior values add no new branch).", ref="4/C04"),
  "C18": dict(engine="E2", technique="exhaustive sweep over every buffer length n: advertised maximum vs the real write, strict decoder as oracle",
              text="For every n in 0..=3*10248+64 (thorough 10*10248+64) and a boundary set up to 64 chunks, the real calculate_max_input(n) is followed by the real write of exactly that many bytes into an n-byte buffer; consumed must equal the advertised size, the output must decode to the input, m<=n and m is monotone. Chunked and length-delimited.",
@@ -22,10 +22,10 @@ CHECKS = {
              text="Every head of the grammar (2 versions x 12 statuses x 4 reason shapes x all ordered field lists up to length 2/3 over a 9-entry pool, plus the 0/1/127/128/129/130/200-field limit cases) is offered at EVERY prefix length and with trailing bytes to Flow::try_response (GET and HEAD flows), Call::try_response and parser::try_parse_response::<128>; strict prefixes must yield need-more-data with an unchanged state, complete heads the reference parse and the exact length. The deliberate truncated-redirect fallback is reported as known finding KF1 under a structural key; any other acceptance of a prefix is a violation.",
              note="Field names/values are drawn from the pool; limit-case heads (>400 bytes) are cut at every prefix of the first and last 80 bytes and around every line end only.", ref="4/C05"),
  "C06": dict(engine="E2", technique="exhaustive sweep of the full 777 600-cell body-framing decision table on the real code vs an RFC 9112 reference function",
-             text="All cells of method x status 100..=999 x version x Content-Length x Transfer-Encoding are executed through Flow::try_response + proceed + body_mode and through Call::try_response + into_body, compared with a reference decision function written from the property statement, and each decided framing is confirmed by reading a probe body with trailing bytes.",
+             text="All 1.6 million cells of method x status 100..=999 x version x Content-Length (incl. 2^32, zero-padded, 2^64) x Transfer-Encoding (incl. empty / prefix list elements), every third status with empty-valued fields ahead of the framing headers, are executed through Flow::try_response + proceed + body_mode and through Call::try_response + into_body, compared with a reference decision function written from the property statement, and each decided framing is confirmed by reading a probe body with trailing bytes.",
              note="Header values are the enumerated alphabets; status 100 is treated as interim (skipped or rejected, never a body state).", ref="4/C06"),
  "C15": dict(engine="E2", technique="exhaustive sweep of the 7200-cell redirect method table through the real flow",
-             text="Every method x every status 300..=399 x both policies x four response-body kinds is driven through the real flow from Prepare to the redirect state; state entered, reported status, as_new_flow result, Flow::<Prepare>::method() and the request line actually written are compared with the documented table.",
+             text="Every method x every status 300..=399 x both policies x four response-body kinds x Location present/absent x request mode (plain, send-body-despite-method, Expect refused by the 3xx, late 100 in the same buffer) is driven through the real flow from Prepare to the redirect state; state entered, reported status, as_new_flow result, Flow::<Prepare>::method() and the request line actually written are compared with the documented table.",
              note="One Location value (/next); URI resolution belongs to C14.", ref="4/C15"),
  "C20": dict(engine="E2", technique="exhaustive sweep: every prefix of every generated request/response head through four monomorphic instances of each public parser vs an independent parser",
              text="Response and request heads with f fields for every f in 0..=N+2 for each limit N in {0,1,4,128} are offered at every prefix length and with trailing bytes to try_parse_response::<N>, try_parse_partial_response::<N> and try_parse_request::<N>; complete/incomplete/too-many verdicts, message content, reported length and the partial parser's 'only completely present fields, in order' rule are checked in every cell.",
